@@ -50,35 +50,42 @@ private def dataOf? (ts : List String) : Option (List Int) :=
   | [] => none
 
 /-- a request token → the op plus whether the backing data is printed as well -/
-private def bop? (t : String) : Option (BOp Int × Bool) :=
+private def bop? (t : String) : Option (BOp Int × Nat) :=
   match t.splitOn ":" with
-  | ["push", x] => x.toInt?.map fun x => (.push x, false)
-  | ["pop"] => some (.pop, false)
-  | ["get", i] => i.toNat?.map fun i => (.get i, false)
-  | ["gm", i, x] => do let i ← i.toNat?; let x ← x.toInt?; pure (.getMut i x, false)
-  | ["ix", i] => i.toNat?.map fun i => (.index i, false)
-  | ["ixm", i, x] => do let i ← i.toNat?; let x ← x.toInt?; pure (.indexMut i x, false)
-  | ["len"] => some (.len, false)
-  | ["empty"] => some (.isEmpty, false)
-  | ["full"] => some (.isFull, false)
-  | ["max"] => some (.maxLen, false)
-  | ["iter"] => some (.iter, false)
-  | ["slices"] => some (.slices, false)
-  | ["im", xs] => (ints? xs).map fun xs => (.iterMut xs, false)
-  | ["sm", xs] => (ints? xs).map fun xs => (.slicesMut xs, false)
-  | ["drain", k] => k.toNat?.map fun k => (.drain k, false)
-  | ["ext", xs] => (ints? xs).map fun xs => (.extend xs, false)
-  | ["raw"] => some (.reparts, false)
-  | ["data"] => some (.reparts, true)
+  | ["push", x] => x.toInt?.map fun x => (.push x, 0)
+  | ["pop"] => some (.pop, 0)
+  | ["get", i] => i.toNat?.map fun i => (.get i, 0)
+  | ["gm", i, x] => do let i ← i.toNat?; let x ← x.toInt?; pure (.getMut i x, 0)
+  | ["ix", i] => i.toNat?.map fun i => (.index i, 0)
+  | ["ixm", i, x] => do let i ← i.toNat?; let x ← x.toInt?; pure (.indexMut i x, 0)
+  | ["len"] => some (.len, 0)
+  | ["empty"] => some (.isEmpty, 0)
+  | ["full"] => some (.isFull, 0)
+  | ["max"] => some (.maxLen, 0)
+  | ["iter"] => some (.iter, 0)
+  | ["slices"] => some (.slices, 0)
+  | ["im", xs] => (ints? xs).map fun xs => (.iterMut xs, 0)
+  | ["sm", xs] => (ints? xs).map fun xs => (.slicesMut xs, 0)
+  | ["drain", k] => k.toNat?.map fun k => (.drain k, 0)
+  -- `rb.drain().nth(k)`: `k+1` steps of the draining iterator of which the client sees the last
+  -- (Props/C06 `drain_nth_refines`)
+  | ["dnth", k] => k.toNat?.map fun k => (.drain (k + 1), 2)
+  | ["ext", xs] => (ints? xs).map fun xs => (.extend xs, 0)
+  | ["raw"] => some (.reparts, 0)
+  | ["data"] => some (.reparts, 1)
   | _ => none
 
-private def runBounded (b : Bounded Int) (ops : List (BOp Int × Bool)) : String :=
-  let (_, out) := ops.foldl (fun (acc : Bounded Int × List String) (op, withData) =>
+private def runBounded (b : Bounded Int) (ops : List (BOp Int × Nat)) : String :=
+  let (_, out) := ops.foldl (fun (acc : Bounded Int × List String) (op, flag) =>
+    let withData := flag == 1
     let b := acc.1
     let r := b.step op
     let oob := (b.stepAcc op).any (fun i => decide (i ≥ b.data.length)) ||
                (b.stepChecks op).any (fun p => decide (p.1 > p.2))
-    let s := showObs r.2 ++ (if withData then "{" ++ ",".intercalate (r.1.data.map toString) ++ "}" else "")
+    let shown : Obs Int := match flag, op, r.2 with
+      | 2, .drain k1, .list l => .opt l[k1 - 1]?
+      | _, _, o => o
+    let s := showObs shown ++ (if withData then "{" ++ ",".intercalate (r.1.data.map toString) ++ "}" else "")
                ++ (if oob then " OOB" else "")
     (r.1, s :: acc.2)) (b, [])
   " ".intercalate out.reverse
